@@ -4,7 +4,7 @@
 From Coq Require Import ZArith QArith List String.
 Require Import WV.base.Py WV.gen.GenBlock WV.proofs.PyTac.
 Require WV.props.C01 WV.props.C03 WV.props.C04 WV.props.C05 WV.props.C10 WV.props.C11 WV.props.C12 WV.props.C13
-        WV.props.C14 WV.props.C16 WV.props.C18.
+        WV.props.C14 WV.props.C16 WV.props.C18 WV.props.C06 WV.props.C07 WV.props.C08 WV.props.C15.
 
 Ltac restate t := let T := type of t in exact T.
 
@@ -81,3 +81,38 @@ Check C18.C18_bookmark_tree_total.
 Theorem C02_bookmark_tree_total : ltac:(restate C18.C18_bookmark_tree_total).
 Proof. exact C18.C18_bookmark_tree_total. Qed.
 Print Assumptions C02_bookmark_tree_total.
+
+(* kernels added later: counter styles, var() resolution, table slot loop and table fix-ups, the cascade's
+   precedence function and the replaced / absolute sizing functions regenerated from the source *)
+Check C15.C15_render_total.
+Theorem C02_counter_render_total : ltac:(restate C15.C15_render_total).
+Proof. exact C15.C15_render_total. Qed.
+Print Assumptions C02_counter_render_total.
+Check C15.C15_render_fuel_sufficient.
+Theorem C02_counter_render_fuel_sufficient : ltac:(restate C15.C15_render_fuel_sufficient).
+Proof. exact C15.C15_render_fuel_sufficient. Qed.
+Print Assumptions C02_counter_render_fuel_sufficient.
+Check C07.C07_var_fuel_sufficient.
+Theorem C02_var_resolution_fuel_sufficient : ltac:(restate C07.C07_var_fuel_sufficient).
+Proof. exact C07.C07_var_fuel_sufficient. Qed.
+Print Assumptions C02_var_resolution_fuel_sufficient.
+Check C08.C08_table_slots_total.
+Theorem C02_table_slot_loop_terminates : ltac:(restate C08.C08_table_slots_total).
+Proof. exact C08.C08_table_slots_total. Qed.
+Print Assumptions C02_table_slot_loop_terminates.
+Check C08.C08_table_structure.
+Theorem C02_anonymous_table_boxes_terminates : ltac:(restate C08.C08_table_structure).
+Proof. exact C08.C08_table_structure. Qed.
+Print Assumptions C02_anonymous_table_boxes_terminates.
+Check C06.C06_source_declaration_precedence_origin.
+Theorem C02_declaration_precedence_never_asserts : ltac:(restate C06.C06_source_declaration_precedence_origin).
+Proof. exact C06.C06_source_declaration_precedence_origin. Qed.
+Print Assumptions C02_declaration_precedence_never_asserts.
+Check C11.C11_source_absolute_width.
+Theorem C02_absolute_width_total : ltac:(restate C11.C11_source_absolute_width).
+Proof. exact C11.C11_source_absolute_width. Qed.
+Print Assumptions C02_absolute_width_total.
+Check C11.C11_source_absolute_height.
+Theorem C02_absolute_height_total : ltac:(restate C11.C11_source_absolute_height).
+Proof. exact C11.C11_source_absolute_height. Qed.
+Print Assumptions C02_absolute_height_total.
